@@ -263,7 +263,7 @@ CONTROL.update({'@': 0, '`': 0, '[': 27, '{': 27, '\\': 28, '|': 28, ']': 29, '}
 
 def gen_ops(rng, which, unicode_mode, reads=True, sends=True, setlogs=False):
     ops = []
-    text_pool = ['a', 'xy', 'é', '☃', '😀', 'b\n', '', 'ü€']
+    text_pool = ['a', 'xy', 'é', '☃', '😀', 'b\n', '', 'ü€', '\ufeff', '\x00', '\r\n', '\ufffd']
     stream = ''.join(rng.choice(text_pool) for _ in range(rng.randint(0, 8)))
     raw = stream.encode('utf-8') if unicode_mode else bytes(rng.randrange(256) for _ in range(rng.randint(0, 10)))
     cuts = sorted(set(rng.randrange(len(raw) + 1) for _ in range(rng.randint(0, 4)))) if raw else []
